@@ -141,7 +141,7 @@ package bloomsearch
 //@ modifies ghost.mutexLocks
 //@ ensures ghost.mutexLocks == old(ghost.mutexLocks) + 1
 
-//@ modset store =ghost.seekPos, ghost.stageIn, ghost.rowsScanned, ghost.scanErrs, ghost.unions, ghost.written, ghost.layoutOvf, ghost.creates, ghost.created, ghost.writes, ghost.closeCalls, ghost.closeOK, ghost.aborts, ghost.tombstones, ghost.opens, ghost.updates, ghost.updateOK, ghost.closeOKAtUpdate, ghost.updateOKAtTombstone, ghost.tombstonesAtUpdate
+//@ modset store =ghost.lastBuiltFrom, ghost.seekPos, ghost.stageIn, ghost.rowsScanned, ghost.scanErrs, ghost.unions, ghost.written, ghost.layoutOvf, ghost.creates, ghost.created, ghost.writes, ghost.closeCalls, ghost.closeOK, ghost.aborts, ghost.tombstones, ghost.opens, ghost.updates, ghost.updateOK, ghost.closeOKAtUpdate, ghost.updateOKAtTombstone, ghost.tombstonesAtUpdate
 //@ modset answers = ghost.attempts, ghost.roundAttempts, ghost.sendRounds, ghost.nilRounds, ghost.updateOKAtNilRound, ghost.sends, ghost.nilsends, ghost.recvs
 
 // Store interfaces: results are unconstrained (any call may fail, in any
@@ -321,6 +321,34 @@ package bloomsearch
 //@ loop 0 invariant [C17] ghost.written[wid(writer)] >= old(ghost.written[wid(writer)])
 //@ loop 0 invariant [C17] ghost.written[wid(writer)] - old(ghost.written[wid(writer)]) <= MaxInt64 ==> currentOffset == ghost.written[wid(writer)] - old(ghost.written[wid(writer)]) && rowsAt(fileMetadata.DataBlocks, currentOffset)
 //@ at call WriteFileFooter#1 assert [C17] ghost.written[wid(writer)] - old(ghost.written[wid(writer)]) <= MaxInt64 ==> rowsAt(fileMetadata.DataBlocks, fileMetadata.BlockFilterRegionOffset) && sectionsAt(fileMetadata.DataBlocks, fileMetadata.BlockFilterRegionOffset, fileMetadata.BlockFilterRegionOffset + fileMetadata.BlockFilterRegionSize) && fileMetadata.BlockFilterRegionOffset + fileMetadata.BlockFilterRegionSize == ghost.written[wid(writer)] - old(ghost.written[wid(writer)])
+// C18 (flush path): every block's filters are built from that block's own entry
+// sets; the block's sets are folded into the file-level sets; and the file-level
+// filters are built from the file-level sets only after every block has been
+// folded in — so the file's filters contain every entry of every block (given
+// the bloom library adds what it is told to add), for any number of partitions.
+// (the block's sets are named through the state on entry — old(...) — so that the
+// statement does not depend on the versions of the buffer structs the loop body
+// rewrites; "has" is always membership now)
+//@ pred subF(e *bloomEntrySets, f *bloomEntrySets) = forall k str :: has(old(e.fields), k) ==> has(f.fields, k)
+//@ pred subT(e *bloomEntrySets, f *bloomEntrySets) = forall k str :: has(old(e.tokens), k) ==> has(f.tokens, k)
+//@ pred subFT(e *bloomEntrySets, f *bloomEntrySets) = forall k str :: has(old(e.fieldTokens), k) ==> has(f.fieldTokens, k)
+//@ pred oldSets(e *bloomEntrySets) = e != nil && setsOK(e) && ref(e) >= old($alloc) && ref(e.fields) >= old($alloc) && ref(e.tokens) >= old($alloc) && ref(e.fieldTokens) >= old($alloc)
+//@ pred sameEntries(pb *partitionBuffer) = pb != nil && pb.entries == old(pb.entries) && pb.entries.fields == old(pb.entries.fields) && pb.entries.tokens == old(pb.entries.tokens) && pb.entries.fieldTokens == old(pb.entries.fieldTokens)
+//@ requires [C18] forall key str :: has(flushReq.partitionBuffers, key) ==> get(flushReq.partitionBuffers, key) != nil && oldSets(get(flushReq.partitionBuffers, key).entries)
+//@ loop 0 invariant [C18] freshSets(fileEntries)
+//@ loop 0 invariant [C18] forall key str :: $visited[key] ==> has(flushReq.partitionBuffers, key)
+//@ loop 0 invariant [C18] forall key str :: has(flushReq.partitionBuffers, key) ==> sameEntries(get(flushReq.partitionBuffers, key)) && oldSets(get(flushReq.partitionBuffers, key).entries)
+//@ loop 0 invariant [C18] forall key str :: $visited[key] ==> subF(old(get(flushReq.partitionBuffers, key).entries), fileEntries)
+//@ loop 0 invariant [C18] forall key str :: $visited[key] ==> subT(old(get(flushReq.partitionBuffers, key).entries), fileEntries)
+//@ loop 0 invariant [C18] forall key str :: $visited[key] ==> subFT(old(get(flushReq.partitionBuffers, key).entries), fileEntries)
+//@ at call encodeFilterSection#1 assert [C18] ghost.lastBuiltFrom == ref(partitionBuffer.entries)
+//@ at call WriteFileFooter#1 assert [C18] ghost.lastBuiltFrom == ref(fileEntries)
+//@ at call (*bloomEntrySets).buildFilters#2 assert [C18] forall key str :: has(flushReq.partitionBuffers, key) ==> subF(old(get(flushReq.partitionBuffers, key).entries), fileEntries)
+//@ at call (*bloomEntrySets).buildFilters#2 assert [C18] forall key str :: has(flushReq.partitionBuffers, key) ==> subT(old(get(flushReq.partitionBuffers, key).entries), fileEntries)
+//@ at call (*bloomEntrySets).buildFilters#2 assert [C18] forall key str :: has(flushReq.partitionBuffers, key) ==> subFT(old(get(flushReq.partitionBuffers, key).entries), fileEntries)
+//@ at call WriteFileFooter#1 assert [C18] forall key str :: has(flushReq.partitionBuffers, key) ==> subF(old(get(flushReq.partitionBuffers, key).entries), fileEntries)
+//@ at call WriteFileFooter#1 assert [C18] forall key str :: has(flushReq.partitionBuffers, key) ==> subT(old(get(flushReq.partitionBuffers, key).entries), fileEntries)
+//@ at call WriteFileFooter#1 assert [C18] forall key str :: has(flushReq.partitionBuffers, key) ==> subFT(old(get(flushReq.partitionBuffers, key).entries), fileEntries)
 //@ loop 0 invariant ghost.creates == old(ghost.creates) + 1 && ghost.created == old(ghost.created) + 1
 //@ loop 0 invariant ghost.closeCalls == old(ghost.closeCalls) && ghost.closeOK == old(ghost.closeOK) && ghost.aborts == old(ghost.aborts)
 //@ loop 0 invariant ghost.updates == old(ghost.updates) && ghost.updateOK == old(ghost.updateOK) && ghost.tombstones == old(ghost.tombstones)
@@ -1113,6 +1141,32 @@ package bloomsearch
 //@ ensures old(b.bloomExplicitSet) && old(b.query.Bloom.Expression) == nil ==> b.query.Bloom.Expression != nil && *b.query.Bloom.Expression == expression
 //@ ensures old(b.bloomExplicitSet) && old(b.query.Bloom.Expression) != nil ==> b.query.Bloom.Expression != nil && b.query.Bloom.Expression.ExpressionType == BloomExpressionAnd && b.query.Bloom.Expression.Condition == nil
 
+// The regex side of the builder mirrors the bloom side: whereRegex sets the
+// explicit expression; addRegexExpression ANDs onto an explicit expression by
+// building a NEW node (RegexAnd copies: the caller's expression tree is never
+// written — append-shared) or collects implicit conditions.
+//@ func (*QueryBuilder).whereRegex
+//@   heapfacts
+//@ props C25
+//@ requires b != nil && b.query != nil && b.query.Regex != nil
+//@ modifies b.regexExplicitSet, b.implicitRegexAnd, b.query.Regex.Expression, heap(RegexExpression)
+//@ ensures result == b && b.regexExplicitSet && len(b.implicitRegexAnd) == 0
+//@ ensures b.query.Regex.Expression != nil && *b.query.Regex.Expression == expression
+
+//@ func (*QueryBuilder).addRegexExpression
+//@ appends b.implicitRegexAnd
+//@   heapfacts
+//@ props C25
+//@ requires b != nil && b.query != nil && b.query.Regex != nil
+//@ modifies b.implicitRegexAnd, b.query.Regex.Expression, heap(RegexExpression)
+//@ ensures b.regexExplicitSet == old(b.regexExplicitSet)
+//@ ensures !old(b.regexExplicitSet) ==> len(b.implicitRegexAnd) == old(len(b.implicitRegexAnd)) + 1 && b.implicitRegexAnd[len(b.implicitRegexAnd) - 1] == expression && b.query.Regex.Expression == old(b.query.Regex.Expression)
+//@ ensures !old(b.regexExplicitSet) ==> forall k :: 0 <= k && k < old(len(b.implicitRegexAnd)) ==> b.implicitRegexAnd[k] == old(b.implicitRegexAnd[k])
+//@ ensures old(b.regexExplicitSet) && old(b.query.Regex.Expression) == nil ==> b.query.Regex.Expression != nil && *b.query.Regex.Expression == expression
+//@ ensures old(b.regexExplicitSet) && old(b.query.Regex.Expression) != nil ==> b.query.Regex.Expression != nil && b.query.Regex.Expression.ExpressionType == RegexExpressionAnd && b.query.Regex.Expression.Condition == nil
+// the explicit expression the caller handed in is not written: its node and its children are as before
+//@ ensures old(b.regexExplicitSet) && old(b.query.Regex.Expression) != nil ==> old(b.query.Regex.Expression).ExpressionType == old(b.query.Regex.Expression.ExpressionType) && len(old(b.query.Regex.Expression).Children) == old(len(b.query.Regex.Expression.Children))
+
 // Build: without an explicit expression, the query's bloom expression is the AND
 // of everything that was added, in the sense of And's contract.
 //@ func (*QueryBuilder).Build
@@ -1124,6 +1178,9 @@ package bloomsearch
 //@ ensures b.bloomExplicitSet || len(b.implicitBloomAnd) == 0 ==> b.query.Bloom.Expression == old(b.query.Bloom.Expression)
 //@ ensures !b.bloomExplicitSet && len(b.implicitBloomAnd) > 0 ==> b.query.Bloom.Expression != nil && b.query.Bloom.Expression.ExpressionType == BloomExpressionAnd && b.query.Bloom.Expression.Condition == nil
 //@ ensures !b.bloomExplicitSet && len(b.implicitBloomAnd) > 0 ==> ((forall c in b.query.Bloom.Expression.Children :: ev(c)) <==> (forall x in b.implicitBloomAnd :: ballOf(x, BloomExpressionAnd)))
+//@ ensures b.regexExplicitSet || len(b.implicitRegexAnd) == 0 ==> b.query.Regex.Expression == old(b.query.Regex.Expression)
+//@ ensures !b.regexExplicitSet && len(b.implicitRegexAnd) > 0 ==> b.query.Regex.Expression != nil && b.query.Regex.Expression.ExpressionType == RegexExpressionAnd && b.query.Regex.Expression.Condition == nil
+//@ ensures !b.regexExplicitSet && len(b.implicitRegexAnd) > 0 ==> ((forall c in b.query.Regex.Expression.Children :: rev(c)) <==> (forall x in b.implicitRegexAnd :: rallOf(x, RegexExpressionAnd)))
 
 //@ func (*QueryBuilder).MatchPrefilter
 //@   heapfacts
@@ -1213,7 +1270,7 @@ package bloomsearch
 //@ requires b != nil && currentOffset != nil && newDataBlocks != nil && fileEntries != nil && filterRegion != nil
 //@ requires [C17] rowsOK(*newDataBlocks, *currentOffset) && sectionsAt(*newDataBlocks, 0, regionLen(filterRegion)) && storeWriter(writer)
 //@ requires [C17,C18] setsOK(fileEntries)
-//@ modifies heaps, ghost.pinned, ghost.unsafeViews, ghost.opens, ghost.handleCloses, ghost.writes, ghost.written, ghost.unions, ghost.layoutOvf, ghost.seekPos, ghost.stageIn, ghost.rowsScanned, ghost.scanErrs
+//@ modifies heaps, ghost.pinned, ghost.unsafeViews, ghost.opens, ghost.handleCloses, ghost.writes, ghost.written, ghost.unions, ghost.layoutOvf, ghost.seekPos, ghost.stageIn, ghost.rowsScanned, ghost.scanErrs, ghost.lastBuiltFrom
 //@ pred untouched(nb *[]DataBlockMetadata, co *int, fr *blockFilterRegionWriter, w iface) = *nb == old(*nb) && *co == old(*co) && regionLen(fr) == old(regionLen(fr)) && ghost.layoutOvf == old(ghost.layoutOvf) && ghost.written[wid(w)] == old(ghost.written[wid(w)]) && sameelems(*nb)
 //@ pred sameSets2(s *bloomEntrySets) = s.fields == old(s.fields) && s.tokens == old(s.tokens) && s.fieldTokens == old(s.fieldTokens)
 //@ loop 0 invariant untouched(newDataBlocks, currentOffset, filterRegion, writer) && sameSets2(fileEntries)
@@ -1304,6 +1361,24 @@ package bloomsearch
 //@ ensures arr(rowBytes) != 0 ==> ghost.pinned[arr(rowBytes)]
 //@ ensures forall a :: a != arr(rowBytes) || a == 0 ==> ghost.pinned[a] == old(ghost.pinned[a])
 //@ ensures s.fields == old(s.fields) && s.tokens == old(s.tokens) && s.fieldTokens == old(s.fieldTokens)
+
+// counts only reads.
+//@ func (*bloomEntrySets).counts
+//@ props C18 C17
+//@ requires [C18] s != nil
+//@ modifies nothing
+//@ ensures result.Fields == len(s.fields) && result.Tokens == len(s.tokens) && result.FieldTokens == len(s.fieldTokens)
+
+// buildFilters builds new filters from the receiver's sets; it writes no entry
+// set (frame by the types of the locations it can store to) and records whose
+// sets the filters were built from.
+//@ ghostvar lastBuiltFrom int   // identity of the entry sets the last buildFilters call was made on
+//@ func (*bloomEntrySets).buildFilters
+//@ props C18
+//@ requires [C18] s != nil
+//@ entry ghost.lastBuiltFrom = ref(s)
+//@ modifies heaps, ghost.lastBuiltFrom
+//@ ensures ghost.lastBuiltFrom == ref(s)
 
 // unionInto: afterwards dst holds every entry of s and everything it held
 // before, and nothing else — the file-level sets are exactly the union of the
@@ -1446,7 +1521,7 @@ package bloomsearch
 //@ ensures [C18] result == nil ==> ghost.unions == old(ghost.unions) + 1
 //@ ensures [C18] ghost.unions <= old(ghost.unions) + 1
 //@ appends *newDataBlocks
-//@ modifies heaps, ghost.pinned, ghost.unsafeViews, ghost.opens, ghost.handleCloses, ghost.writes, ghost.written, ghost.unions, ghost.layoutOvf, ghost.seekPos, ghost.stageIn, ghost.rowsScanned, ghost.scanErrs
+//@ modifies heaps, ghost.pinned, ghost.unsafeViews, ghost.opens, ghost.handleCloses, ghost.writes, ghost.written, ghost.unions, ghost.layoutOvf, ghost.seekPos, ghost.stageIn, ghost.rowsScanned, ghost.scanErrs, ghost.lastBuiltFrom
 //@ loop 0 invariant forall a :: ghost.pinned[a] ==> a >= $alloc && a != 0
 //@ loop 1 invariant forall a :: ghost.pinned[a] ==> a >= $alloc && a != 0
 //@ loop 1 invariant scanner != nil && 0 <= scanner.pos && scanner.pos <= len(scanner.data)
